@@ -20,6 +20,8 @@
 extern "C" int __real_select(int, fd_set *, fd_set *, fd_set *, struct timeval *);
 extern "C" ssize_t __real_send(int, const void *, size_t, int);
 extern "C" ssize_t __real_recv(int, void *, size_t, int);
+extern "C" int __real_socketpair(int, int, int, int[2]);
+static bool g_failSocketpairs = false;
 
 namespace vs { namespace thr {
 
@@ -91,6 +93,7 @@ static bool Enabled(SimThread * t, bool * byTimeout)
    if ((IsTimedWaiter(t))&&(t->deadline <= g_now)) {*byTimeout = true; return true;}
    return false;
 }
+void FailSocketpairs(bool on) {g_failSocketpairs = on;}
 bool IsAsleep(int tid)
 {
    if ((tid < 0)||((size_t) tid >= g_threads.size())) return false;
@@ -402,6 +405,7 @@ int __wrap_select(int n, fd_set * r, fd_set * w, fd_set * e, struct timeval * tv
 }
 static bool SimEintr() {if ((g_cfg.pEintrPct > 0)&&((int) g_rng.below(100) < g_cfg.pEintrPct)&&(g_replayPos >= g_cfg.replay.size())) {g_stats.eintrs++; errno = EINTR; return true;} return false;}
 ssize_t __wrap_send(int fd, const void * b, size_t n, int f) {if ((t_self)&&(g_muscleVerifSim)) {Schedule("send"); if (SimEintr()) return -1;} return __real_send(fd, b, n, f);}
+int __wrap_socketpair(int d, int t, int pr, int sv[2]) {if (g_failSocketpairs) {errno = EMFILE; return -1;} return __real_socketpair(d, t, pr, sv);}
 ssize_t __wrap_recv(int fd, void * b, size_t n, int f) {if ((t_self)&&(g_muscleVerifSim)) {Schedule("recv"); if (SimEintr()) return -1;} return __real_recv(fd, b, n, f);}
 
 // Symbol interposition (not --wrap): these are called from inside libstdc++.so (std::condition_variable::wait / notify_one / notify_all,
